@@ -128,6 +128,8 @@ def run_sharded(binary, args, nshards=None, timeout=None, env_extra=None):
                 continue
             if o.get("type") == "violation":
                 merged["violations"].append(o)
+            elif o.get("type") not in (None, "summary"):
+                merged.setdefault("other", []).append(o)
             elif o.get("type") == "summary":
                 got_summary = True
                 merged["evaluations"] += o.get("evaluations", 0)
